@@ -721,8 +721,14 @@ pub fn refresh(
     let new_rights = if keep_old_rights {
         refresh_coordinate_keys(msk, usk.secrets.clone())
     } else {
-        msk.get_latest_right_sk(usk.secrets.iter().map(|(r, _)| r.clone()))
-            .collect::<Result<RevisionVec<Right, RightSecretKey>, Error>>()?
+        // Rights that do not belong to the MSK anymore are removed.
+        msk.get_latest_right_sk(
+            usk.secrets
+                .iter()
+                .filter(|(r, _)| msk.secrets.contains_key(r))
+                .map(|(r, _)| r.clone()),
+        )
+        .collect::<Result<RevisionVec<Right, RightSecretKey>, Error>>()?
     };
 
     let signature = sign(msk, &new_id, &new_rights)?;
